@@ -8,16 +8,17 @@ ids = [json.loads(l)["id"] for l in open(os.path.join(V, "properties.jsonl"))]
 checks, na = [], []
 TECH = {}
 for p_ in ("C01", "C02", "C03", "C04", "C05", "C08", "C09", "C10"):
-    TECH[p_] = ("seqmc", "explicit-state model checking of the implementation: breadth-first closure over API histories (state = history replayed on a fresh object, deduplicated by a canonical state string), reference model and structural invariants checked on every transition")
+    TECH[p_] = ("seqmc", "explicit-state model checking of the implementation: breadth-first closure over API histories (state = history replayed on a fresh object, deduplicated by a canonical state string), reference model and structural invariants checked on every transition; plus depth-bounded enumeration of unmerged histories (reads included) from non-initial states")
 for p_ in ("C06", "C07"):
     TECH[p_] = ("imagemc", "explicit-state model checking of the implementation: breadth-first search over memory images restored at a different address before every transition; map/accounting model, well-formedness invariant and relocation/residue/address differentials on every transition")
 for p_ in ("C11", "C12"):
     TECH[p_] = ("seqmc+imagemc", "the explicit-state searches of C01-C10 (every reachable state x every operation) with sanitizer, allocation-ledger, guard-zone, uninitialised-stack and ownership oracles evaluated on every transition")
-TECH["C13"] = ("sched", "stateless model checking: exhaustive enumeration of thread schedules up to a preemption bound (real pthreads serialised at the library's lock operations), every execution checked for linearizability by brute force, deadlock and data races (TSan under the same scheduler)")
+TECH["C13"] = ("sched", "stateless model checking: exhaustive enumeration of thread schedules up to a preemption bound (real pthreads serialised at the library's lock operations), every execution checked for linearizability by brute force, deadlock and data races (TSan under the same scheduler); the lock-wait time-out of the library is a bounded deviation of the same enumeration")
 for p_ in ("C14", "C15"):
     TECH[p_] = ("faultenum", "exhaustive enumeration of (state, operation, entry lock depth, allocation-fault position) with a differential oracle against fault-free executions and pthread-level lock-depth tracking")
+TECH["C14"] = ("faultenum+sched", TECH["C14"][1] + "; plus stateless enumeration of 2-thread schedules with a bounded number of lock-wait time-outs (the library's stall breaker runs) - every thread must still complete and the lock must end free")
 for p_ in ("C16", "C17", "C18", "C19", "C20"):
-    TECH[p_] = ("inputmc", "bounded-exhaustive enumeration of inputs / argument tuples / generated documents (complete up to the stated length over the stated alphabet), each executed on the real code and compared with an independent reference or the generator's known meaning; sanitizers and uninitialised-stack oracle")
+    TECH[p_] = ("inputmc", "bounded-exhaustive enumeration of inputs / argument tuples / generated documents (complete up to the stated length over the stated alphabet), each executed on the real code and compared with an independent reference or the generator's known meaning; sanitizers and uninitialised-stack oracle; plus exhaustive enumeration of the schedules of every pair of calls run by two threads (re-entrancy: differential against the calls made alone, TSan under a scheduler it cannot see)")
 for pid in ids:
     s = registry.PROPS.get(pid)
     if not s or not s.get("claim", True):
